@@ -255,7 +255,7 @@ func TestC17_LongForm(t *testing.T) {
 		return v
 	}
 	check(t, "C17", 150, func(t *rapid.T) {
-		method := rapid.SampledFrom([]string{"ion", "ion", "ionx", "io", "orb", "a1", "ion:test", "sidetree:local:dev"}).Draw(t, "method")
+		method := rapid.SampledFrom([]string{"ion", "ion", "ionx", "io", "orb", "a1", "ion:test", "sidetree:local:dev", "bloc:trustbloc.dev", "ion:a.b+c"}).Draw(t, "method")
 		ns := "did:" + method
 		v := vdrFor(method)
 		d := genC17Doc(t)
@@ -348,6 +348,33 @@ func TestC17_LongForm(t *testing.T) {
 		rt, _ := jsonRoundTrip(rr)
 		if g, w := refJCS(canonicalizeResolution(deepCopyValue(rt))), refJCS(canonicalizeResolution(deepCopyValue(want))); g != w {
 			t.Fatalf("C17 long-form DID does not resolve to the document supplied\n got  %s\n want %s", g, w)
+		}
+		// the member "type" of the initial state is optional (the Sidetree long form carries suffix data and delta only): the
+		// DID spelled without it is another long-form DID of the same suffix; it resolves, under the id that was asked for
+		{
+			noType := deepCopyValue(req).(map[string]interface{})
+			delete(noType, "type")
+			did0 := ns + ":" + suffix + ":" + b64([]byte(refJCS(noType)))
+			want0 := refTransform(stateForTransform{doc: internal, edKeyOfEntry: ed, recovery: rec.Commitment(18), update: upd.Commitment(18)},
+				transformOpts{base: true, published: false, id: did0, equivalent: []string{ns + ":" + suffix}})
+			r0, err := h.ResolveDocument(did0)
+			if err != nil {
+				t.Fatalf("C17 long-form DID whose initial state has no type member does not resolve: %v\n%s", err, did0)
+			}
+			rt0, _ := jsonRoundTrip(r0)
+			if g, w := refJCS(canonicalizeResolution(deepCopyValue(rt0))), refJCS(canonicalizeResolution(deepCopyValue(want0))); g != w {
+				t.Fatalf("C17 long-form DID without type member resolves to another result than asked for\n got  %s\n want %s", g, w)
+			}
+			st.Label("initial-state-without-type")
+		}
+		// every character of the namespace counts literally (a dot is a dot)
+		for i := 4; i < len(ns); i++ {
+			if strings.ContainsRune(".+*?()[]", rune(ns[i])) {
+				mustRejectEarly := ns[:i] + "x" + ns[i+1:] + did[len(ns):]
+				if r, err := h.ResolveDocument(mustRejectEarly); err == nil {
+					t.Fatalf("C17 handler of %s resolved a DID of namespace %s (as %s)", ns, ns[:i]+"x"+ns[i+1:], r.Document.ID())
+				}
+			}
 		}
 		// through the VDR
 		read, err := v.Read(did)
